@@ -898,10 +898,15 @@ def impl_lik(case):
 
     observe(out, lambda: nll(amps, taus, "id"))
     observe(out, comps)
-    observe(out, jac)
-    observe(out, lambda: nll(amps[perm], taus[perm], "perm"))
-    for lo, hi, st in limit_classes(case):
-        observe(out, lambda: norm(lo, hi, st))
+    if case["op"] == "likwin":
+        # the regime the repair of F13 is about: only the likelihood was put into the factored form (the Jacobian still
+        # forms exp(-t_min/tau) - exp(-t_max/tau), which is 0 here), so likelihood and components are what is observed
+        observe(out, lambda: nll(amps[perm], taus[perm], "perm"))
+    else:
+        observe(out, jac)
+        observe(out, lambda: nll(amps[perm], taus[perm], "perm"))
+        for lo, hi, st in limit_classes(case):
+            observe(out, lambda: norm(lo, hi, st))
     if out[0] == "?":
         # neither the anchored function nor the public model could be brought to evaluate the likelihood at the given
         # parameters: nothing of this case is tied to the code any more, which is reported (not passed over in silence)
@@ -920,7 +925,7 @@ def impl(case):
 
 def _impl(case):
     k = case["op"]
-    if k == "lik":
+    if k in ("lik", "likwin"):
         return impl_lik(case)
     if k == "fit":
         t, tmin, tmax, step, n = lik_args(case)
@@ -1249,6 +1254,14 @@ def extract_op(case, tracks, excl, obsmin):
 
 def ops(case):
     k = case["op"]
+    if k == "likwin":
+        amps, taus = case["amps"], case["taus"]
+        perm = case["perm"]
+        return [
+            f"c15.nll {fl(amps)} {fl(taus)} {lik_tokens(case)}",
+            f"c15.comps {fl(amps)} {fl(taus)} {lik_tokens(case)}",
+            f"c15.nll {fl([amps[i] for i in perm])} {fl([taus[i] for i in perm])} {lik_tokens(case)}",
+        ]
     if k == "lik":
         amps, taus = case["amps"], case["taus"]
         perm = case["perm"]
@@ -1405,6 +1418,19 @@ def agree_extract(case, ia, ma, ordered):
 def agree(case, i, ia, ma):
     k = case["op"]
     try:
+        if k == "likwin":
+            amps, taus = case["amps"], case["taus"]
+            t = np.array(case["t"], dtype=float)
+            if ia == "?":
+                return True
+            if ia.endswith("Error") or ma in ("bad-op",):
+                return False
+            if i in (0, 2):
+                return close(dec_float(ia), dec_float(ma), 1e-9, 1e-11 * nll_scale(amps, taus, t))
+            A, B = dec_mat(ia), dec_mat(ma)
+            sc = nll_scale(amps, taus, t) / max(1, len(t))
+            return len(A) == len(B) and all(
+                len(r) == len(q) and all(close(x, y, 1e-9, 1e-11 * sc) for x, y in zip(r, q)) for r, q in zip(A, B))
         if k == "lik":
             amps, taus = case["amps"], case["taus"]
             t = np.array(case["t"], dtype=float)
@@ -1514,6 +1540,8 @@ def oracle(case, ia):
     try:
         if k == "lik":
             return oracle_lik(case, ia)
+        if k == "likwin":
+            return oracle_likwin(case, ia)
         if k == "fit":
             return oracle_fit(case, ia)
         if k == "constraint":
@@ -1524,6 +1552,43 @@ def oracle(case, ia):
             return oracle_validate(case, ia)
     except Exception as e:  # an unparsable implementation answer is a failure of the implementation side
         return f"oracle-could-not-read-answer: {type(e).__name__}: {e}; answers {[a[:80] for a in ia]}"
+    return None
+
+
+def window_depth(case):
+    """largest (tmin_i - step_i) / tau_j: beyond ~745 exp(-tmin/tau) is 0 in double precision and the window probability
+    exp(-tmin/tau) - exp(-tmax/tau) can only be had in the factored form"""
+    n = len(case["t"])
+    tmin = arr(case["tmin"], n)
+    shift = tmin if case["step"] is None else tmin - arr(case["step"], n)
+    return float(np.max(shift)) / min(case["taus"])
+
+
+def oracle_likwin(case, ia):
+    """the likelihood is the truncated mixture density also where the window probability is below the range of doubles
+    (textbook formula in extended precision, whose exponent range reaches exp(-11000)); it is finite and relabelling-invariant"""
+    amps, taus = case["amps"], case["taus"]
+    n = len(case["t"])
+    t, tmin, tmax = np.array(case["t"], dtype=float), arr(case["tmin"], n), arr(case["tmax"], n)
+    step = None if case["step"] is None else arr(case["step"], n)
+    for a in ia:
+        if a.endswith("Error"):
+            return f"likelihood-evaluates: admissible parameters raised {a}"
+    if ia[0] == "?":
+        return None
+    with np.errstate(all="ignore"):
+        sc = nll_scale(amps, taus, t)
+        nll = dec_float(ia[0])
+        if not math.isfinite(nll):
+            return (f"likelihood-value: -log L = {nll!r} for admissible parameters inside the lifetime search bounds "
+                    f"(window probability below the range of doubles, largest tmin/tau = {window_depth(case):.0f})")
+        ref = float(o_nll(amps, taus, t, tmin, tmax, step))
+        if math.isfinite(ref) and not close(nll, ref, 1e-9, 1e-10 * sc):
+            return f"likelihood-value: -log L = {nll!r} but the truncated mixture density gives {ref!r}"
+        if ia[2] != "?":
+            nllp = dec_float(ia[2])
+            if not close(nll, nllp, 1e-10, 1e-12 * sc):
+                return f"relabel-invariant: -log L = {nll!r}, after relabelling components with {case['perm']} {nllp!r}"
     return None
 
 
@@ -1835,6 +1900,8 @@ def nontrivial(case, ia):
     k = case["op"]
     if k == "lik":
         return len(case["amps"]) >= 2 or case["step"] is not None or case["tmax"] != "inf"
+    if k == "likwin":
+        return window_depth(case) > 745.0
     if k == "fit":
         return " " in ia[0]
     if k == "constraint":
@@ -1856,9 +1923,9 @@ def nontrivial(case, ia):
 
 def tags(case, r):
     t = {"op": case["op"]}
-    if case["op"] in ("lik", "fit"):
+    if case["op"] in ("lik", "fit", "likwin"):
         t["discrete"] = case["step"] is not None
-        t["ncomp"] = len(case["amps"]) if case["op"] == "lik" else case["ncomp"]
+        t["ncomp"] = len(case["amps"]) if case["op"] != "fit" else case["ncomp"]
     if case["op"] == "fit":
         t["window_underflow_within_bounds"] = underflow_within_bounds(case)
         first = r["impl"][0].split(" ")[0]
@@ -1875,7 +1942,7 @@ def tags(case, r):
 
 def shrink(case):
     k = case["op"]
-    if k in ("lik", "validate") and len(case["t"]) > 1:
+    if k in ("lik", "likwin", "validate") and len(case["t"]) > 1:
         n = len(case["t"])
         for keep in (slice(0, n // 2), slice(n // 2, n), slice(0, n - 1), slice(1, n)):
             c = dict(case)
@@ -1884,7 +1951,7 @@ def shrink(case):
                     c[key] = case[key][keep]
             if len(c["t"]) >= 1:
                 yield c
-    if k == "lik" and len(case["amps"]) > 1:
+    if k in ("lik", "likwin") and len(case["amps"]) > 1:
         for drop in range(len(case["amps"])):
             c = dict(case)
             a = [x for i, x in enumerate(case["amps"]) if i != drop]
@@ -2105,6 +2172,48 @@ def gen_fit(rng, tier, i):
         tmax = "inf"  # the closed-form case
     return {"stream": "random-fit", "op": "fit", "ncomp": n, "gen_amps": amps, "gen_taus": taus, "t": t, "tmin": tmin,
             "tmax": tmax, "step": step, "subseed": i}
+
+
+def gen_likwin(rng, i):
+    """parameters inside the lifetime search bounds at which the window probability of some observation is below the range
+    of doubles: observation limits of two kymographs whose minimum observable times differ by a factor 160-2000 (what
+    finding F13 was about), the shortest lifetime between 1/5000 and 1/750 of the larger minimum (and never below the
+    optimiser's lower bound 0.1 * min(tmin))"""
+    n = rng.choice([1, 2, 2, 3])
+    amps = simplex(rng, n)
+    discrete = rng.chance(0.5)
+    lo1 = rng.choice([0.01, 0.05, 0.1, rng.loguniform(0.005, 0.5)])
+    ratio = rng.choice([160.0, 200.0, 750.0, rng.loguniform(160.0, 2000.0)])
+    lo2 = lo1 * ratio
+    per_line = rng.choice([2, 2, 4, 3]) if discrete else 1  # minimum observable time in line times (discretised model)
+    depth = rng.choice([746.0, 800.0, 1500.0, rng.uniform(750.0, 5000.0)])
+    depth = min(depth, 5.0 * ratio)  # tau_min >= 0.1 * lo1: inside _exponential_mle_bounds
+    tau_min = (lo2 - lo2 / per_line if discrete else lo2) / depth
+    taus = [tau_min] + [tau_min * rng.choice([3.0, 10.0, 30.0, rng.loguniform(1.5, 100.0)]) for _ in range(n - 1)]
+    rng.shuffle(taus)
+    classes = []
+    for lo in (lo1, lo2):
+        st = lo / per_line if discrete else None
+        if rng.chance(0.3):
+            hi = math.inf
+        elif discrete:
+            hi = lo + float(rng.choice([1, 2, 5, rng.randint(1, 400)])) * st
+        else:
+            hi = lo + max(taus) * rng.choice([0.05, 0.5, 3.0, rng.loguniform(0.05, 50.0)])
+        classes.append((lo, hi, st))
+    t, lo_, hi_, st_ = [], [], [], []
+    for j in range(rng.choice([2, 3, 8, rng.randint(2, 60)])):
+        lo, hi, st = classes[j % 2]
+        t.append(sample_dwell(rng, amps, taus, lo, hi, st))
+        lo_.append(lo)
+        hi_.append("inf" if hi == math.inf else hi)
+        st_.append(st)
+    perm = list(range(n))
+    if n > 1:
+        while perm == list(range(n)):
+            rng.shuffle(perm)
+    return {"stream": "random-likwin", "op": "likwin", "amps": amps, "taus": taus, "t": t, "tmin": lo_, "tmax": hi_,
+            "step": (st_ if discrete else None), "perm": perm, "subseed": i}
 
 
 def gen_constraint(rng, i):
@@ -2427,11 +2536,25 @@ def cases(tier, rng):
                               {"kymo": 1, "idx": [], "minobs": 0.5} if minobs else {"kymo": 1, "idx": [1], "minobs": None}]}
 
     # ---- seeded random streams
-    sizes = {"lik": 260, "fit": 140, "constraint": 400, "extract": 500, "extract-seq": 300, "validate": 60} if quick else \
-            {"lik": 4000, "fit": 2500, "constraint": 6000, "extract": 8000, "extract-seq": 5000, "validate": 600}
+    sizes = {"lik": 260, "fit": 140, "constraint": 400, "extract": 500, "extract-seq": 300, "validate": 60, "likwin": 120} if quick else \
+            {"lik": 4000, "fit": 2500, "constraint": 6000, "extract": 8000, "extract-seq": 5000, "validate": 600, "likwin": 1500}
+    # ---- small scope: window probability below the range of doubles (the factored normalisation), all combinations
+    for amps, taus in (([1.0], [0.001]), ([0.25, 0.75], [0.001, 0.01]), ([0.5, 0.25, 0.25], [0.01, 0.001, 0.1])):
+        for lo2 in (1.0, 4.0):
+            for hi in (0.5, 3.0, "inf"):
+                for step in (None, 0.005):
+                    lo1 = 0.01
+                    his = ["inf", "inf"] if hi == "inf" else [lo1 + hi, lo2 + hi]
+                    ts = [lo1, lo1 + 0.005, lo2, lo2 + 0.005] if step else [lo1 + 0.001, lo1 + 0.004, lo2 + 0.001, lo2 + 0.004]
+                    yield {"stream": "small-scope", "op": "likwin", "amps": amps, "taus": taus, "t": ts,
+                           "tmin": [lo1, lo1, lo2, lo2], "tmax": [his[0], his[0], his[1], his[1]],
+                           "step": None if step is None else [step] * 4, "perm": list(reversed(range(len(amps))))}
     r = rng.fork("c15-lik")
     for i in range(sizes["lik"]):
         yield gen_lik(r.fork(i), tier, i)
+    r = rng.fork("c15-likwin")
+    for i in range(sizes["likwin"]):
+        yield gen_likwin(r.fork(i), i)
     r = rng.fork("c15-fit")
     for i in range(sizes["fit"]):
         yield gen_fit(r.fork(i), tier, i)
@@ -2464,6 +2587,7 @@ def extra_coverage(results):
            "fit-refused-rows-outside-their-own-limits": 0}
     seq_edits = {}
     rare_lik = 0
+    deep = {"cases": 0, "depth-745-1000": 0, "depth-1000-2500": 0, "depth-2500-5000": 0, "tmax-inf": 0, "discretised": 0}
     handed = {"fits": 0, "gradient-requests": 0, "inside-the-explored-family": 0, "fits-with-a-request-checked": 0,
               "checked-with-an-amplitude-below-1e-3": 0, "checked-with-an-amplitude-below-1e-6": 0}
     pooled = {"fits-with-array-limits": 0, "several-distinct-windows": 0, "density-integrated": 0, "points-outside-some-window": 0}
@@ -2495,6 +2619,13 @@ def extra_coverage(results):
                 1 for x in pool_points(c) if any(not (lo <= x < hi) for (lo, hi, _), _ in cl) and any(lo <= x < hi for (lo, hi, _), _ in cl))
         if c["op"] == "lik" and min(c["amps"]) < 1e-4:
             rare_lik += 1
+        if c["op"] == "likwin":
+            d = window_depth(c)
+            deep["cases"] += 1
+            deep["discretised"] += c["step"] is not None
+            deep["tmax-inf"] += "inf" in c["tmax"]
+            if d > 745.0:
+                deep["depth-745-1000" if d <= 1000 else ("depth-1000-2500" if d <= 2500 else "depth-2500-5000")] += 1
         if c["op"] in ("lik", "fit"):
             k = len(c["amps"]) if c["op"] == "lik" else c["ncomp"]
             ncomp[f"{c['op']}-{k}"] = ncomp.get(f"{c['op']}-{k}", 0) + 1
@@ -2549,7 +2680,8 @@ def extra_coverage(results):
     return {"case_kinds": kinds, "error_kinds": errs, "components": ncomp, "observations_per_case": nobs, "limits": limits,
             "windows": windows, "model_kind": model_kind, "slsqp_exit_of_fits": slsqp, "discrete_inf_sums_not_covering_support_skipped": uncovered,
             "extraction": ext, "extraction_same_group_object_edited": dict(seq, edits=seq_edits), "amplitude_constraint": cons, "pdf_of_pooled_windows": pooled,
-            "gradient_handed_to_the_optimiser": handed, "lik_cases_with_an_amplitude_below_1e-4": rare_lik, "exhaustive": False,
+            "gradient_handed_to_the_optimiser": handed, "lik_cases_with_an_amplitude_below_1e-4": rare_lik,
+            "likelihood_with_window_probability_below_the_range_of_doubles": deep, "exhaustive": False,
             "exhaustive_note": "the small-scope streams enumerate their finite spaces completely; the random streams do not",
             "dropped_for_margin": dict(_DROPPED),
             "private_members_the_harness_could_not_reach": dict(_UNREACHABLE)}
